@@ -11,7 +11,7 @@ ALL_TARGETS = ['cpp', 'cppcli', 'java', 'objc', 'yaml']
 NAME_POOL = ['foo', 'bar', 'baz', 'item', 'node', 'my_type', 'T1', 'Color', 'state', 'res_code', 'Evt', 'cfg', 'x1',
              'thing', 'other', 'val', 'shape', 'Kind', 'rec_a', 'rec_b', 'iface', 'cb', 'err', 'fn_t']
 NS_POOL = ['a', 'b', 'c', 'ns1', 'inner', 'Outer', 'x_y']
-MEMBER_POOL = ['a', 'b', 'c', 'd', 'first', 'second', 'x', 'y', 'value', 'count', 'name_', 'is_ok', 'data', 'id', 'k1',
+MEMBER_POOL = ['a', 'b', 'c', 'd', 'first', 'second', 'x', 'y', 'value', 'count', 'name_', 'is_ok', 'data', 'idx', 'k1',
                'on_event', 'do_it', 'get_v', 'm1', 'm2']
 
 
@@ -33,7 +33,7 @@ def py_resolve(table, site_ns, spelling):
 # ----------------------------------------------------------------------------- generator
 class Gen:
     def __init__(self, rng, max_decls=8, max_depth=3, p_comment=0.3, targets=None, allow_functions=True,
-                 shadowing=0.5, multi_file=0.3, p_deprecated=0.15, default_deriving=()):
+                 shadowing=0.5, multi_file=0.3, p_deprecated=0.15, default_deriving=(), acyclic=False):
         self.r = rng
         self.max_decls = max_decls
         self.max_depth = max_depth
@@ -44,6 +44,8 @@ class Gen:
         self.shadowing = shadowing
         self.multi_file = multi_file
         self.default_deriving = list(default_deriving)
+        self.acyclic = acyclic      # user types only refer to declarations that come earlier in stub order (no recursive types)
+        self.current = None
 
     # -- skeleton: namespaces + declaration stubs
     def skeleton(self):
@@ -126,6 +128,8 @@ class Gen:
         if 'collection' in allowed and allow_coll and depth < 3:
             kinds += ['collection'] * 2
         user = [v for v in table.values() if v[2] in allowed and v[2] not in ('primitive', 'collection')]
+        if self.acyclic and self.current is not None:
+            user = [v for v in user if self.order.get('.'.join(v[0] + [v[1]]), 10 ** 9) < self.current]
         if user:
             kinds += ['user'] * 4
         k = r.choice(kinds)
@@ -153,6 +157,8 @@ class Gen:
     def throws(self, table, site_ns):
         r = self.r
         errs = [v for v in table.values() if v[2] == 'error']
+        if self.acyclic and self.current is not None:
+            errs = [v for v in errs if self.order.get('.'.join(v[0] + [v[1]]), 10 ** 9) < self.current]
         if r.random() < 0.6:
             return None
         if not errs or r.random() < 0.3:
@@ -251,6 +257,7 @@ class Gen:
         full = {b: ([], b, BUILTIN_KIND[b]) for b in BUILTIN_KIND}
         for s in stubs:
             full['.'.join(s['_ns'] + [s['name']])] = (s['_ns'], s['name'], s['k'])
+        self.order = {'.'.join(s['_ns'] + [s['name']]): i for i, s in enumerate(stubs)}
         root = 'main.pydjinni'
         files = {root: {'loads': [], 'items': top}}
         owner = {id(x): root for x in top}
@@ -290,7 +297,9 @@ class Gen:
             table = View(full, {k for k, v in full.items() if v[2] in ('primitive', 'collection')} |
                          {'.'.join(s['_ns'] + [s['name']]) for s in stubs if id(s) in vis_ids})
             for d, _ in walk_items(f['items']):
+                self.current = self.order.get('.'.join(d['_ns'] + [d['name']]))
                 self.fill(d, table)
+        self.current = None
         return {'files': files, 'root': root}
 
 
